@@ -488,6 +488,7 @@ class Oracle:
         self.conn, self.spec, self.keys, self.violate, self.count, self.call = conn, spec, keys, violate, count, call
 
     phase = None
+    dropped = ()
 
     def case(self, req):
         r = {k: v for k, v in req.items() if not k.startswith('_')}
@@ -664,9 +665,45 @@ class Oracle:
             if 'ok' not in o2 or xk not in set(canon_p(pj(norm_real_path(self._to_path(q), conn), keys)) for q in o2['ok']):
                 an = anomalies_of(conn, y.namespace, {xk, canon_p(pj(y, keys))}, keys) | \
                     anomalies_of(conn, req['ns'], {xk, canon_p(pj(y, keys))}, keys)
+                cause = sorted(an)[0] if an else self._shadow_diagnosis(req['ns'], y.namespace, x, y)
                 self.violate({'kind': 'asymmetric', 'op': 'AN', 'level': 'instance',
-                              'cause': sorted(an)[0] if an else 'other'}, self.case(req),
+                              'cause': cause}, self.case(req),
                              {'y': str(y), 'reverse': o2})
+
+    def _shadow_diagnosis(self, ns1, ns2, x, y):
+        """why is y an associator of x in ns1 but x none of y in ns2?  Looks at the raw stores:
+        'shadow_missing'  - an instance of ns1 linking x and y has no copy in ns2
+        'stale_copy_in_dropped_namespace' - it has a copy in ns2 with other ends, and that copy names no object
+                            of ns1 any more (the instance was re-pointed away from ns1, its ns1 copy stayed)
+        'shadow_differs'  - it has a copy in ns2 with other ends that still names ns1
+        'other'           - none of these"""
+        conn = self.conn
+        if not has_ns(conn, ns2) or ns1.lower() == ns2.lower():
+            return 'other'
+        s2 = conn.cimrepository.get_instance_store(ns2)
+        found = 'other'
+        for a in conn.cimrepository.get_instance_store(ns1).iter_values(copy=False):
+            vals = [p.value for p in a.properties.values() if p.type == 'reference' and p.value is not None]
+            if not (any(v == x for v in vals) and any(v == y for v in vals)):
+                continue
+            # input class: this instance was re-pointed away from ns1 by an earlier ModifyInstance of the history
+            for dp, dns in self.dropped:
+                d1 = dp.copy()
+                d1.namespace = ns1
+                if ns1.lower() in dns and d1 == a.path:
+                    return 'stale_copy_in_dropped_namespace'
+            q = a.path.copy()
+            q.namespace = ns2
+            if not s2.object_exists(q):
+                return 'shadow_missing'
+            b = s2.get(q, copy=False)
+            bvals = [p.value for p in b.properties.values() if p.type == 'reference' and p.value is not None]
+            if sorted(str(v).lower() for v in vals) != sorted(str(v).lower() for v in bvals):
+                if not any(v.namespace is not None and v.namespace.lower() == ns1.lower() for v in bvals):
+                    found = 'stale_copy_in_dropped_namespace'
+                else:
+                    return 'shadow_differs'
+        return found
 
     def _shadowed(self, ns1, ns2, x, y):
         """every association instance stored in ns1 that links x and y is also stored in ns2"""
@@ -950,14 +987,14 @@ def run_repo(spec, only_req=None):
                   orc.check_class(rq_n, o_n, o_f)
               # monotonicity: drop each active filter in turn
               for k in ('ac', 'rc', 'role', 'rrole'):
-                  if active(f.get(k)):
+                  if active(f.get(k)) and not g.get('light'):
                       f2 = dict(f)
                       f2[k] = None
                       rq_p = mkreq(g, names_op, f2)
                       o_p = do(rq_p)
                       orc.check_monotone(rq_n, o_n, rq_p, o_p, lvl)
               # case-insensitivity
-              if rng.random() < 0.5:
+              if rng.random() < 0.5 and not g.get('light'):
                   rq_c = recase_req(rq_n, rng)
                   o_c = do(rq_c)
                   orc.check_case(rq_n, o_n, rq_c, o_c, lvl)
@@ -965,7 +1002,7 @@ def run_repo(spec, only_req=None):
               if lvl == 'instance' and names_op == 'AN' and not active(f.get('rc')):
                   orc.check_symmetry(rq_n, o_n, None)
               # Open.../Iter... variants
-              if lvl == 'instance' and (rng.random() < 0.3 or g.get('only')):
+              if lvl == 'instance' and (rng.random() < (0.08 if 'history' in spec else 0.3) or g.get('only')):
                   for rq, o in ((rq_n, o_n), (rq_f, o_f)):
                       for var, ov in pull_variants(conn_pull, rq, keys, rng).items():
                           count('variant:%s' % var)
@@ -984,6 +1021,7 @@ def run_repo(spec, only_req=None):
         # a history on ONE connection: queries, repository growth through every entry point, the same queries again
         count('history:repositories')
         state = HistoryState(spec)
+        orc.dropped = state.dropped
         asked = history_queries(spec, conn, rng, state, first=True)
         orc.phase = 0
         process(asked)
@@ -993,7 +1031,8 @@ def run_repo(spec, only_req=None):
                 apply_step(conn, spec, state, st, count)
             orc.phase = k + 1
             fresh = history_queries(spec, conn, rng, state, first=False)
-            process(asked + fresh)       # earlier queries are asked again, verbatim
+            # earlier queries are asked again, verbatim ('light': without their monotonicity / recasing companions)
+            process([dict(g, light=True) for g in asked] + fresh)
             asked = asked + fresh
             flush()
     return {'line': lines[0][0], 'real': lines[0][1], 'lines': lines, 'viol': viol, 'counts': counts, 'cases': cases}
@@ -1108,6 +1147,7 @@ class HistoryState:
         self.assocs = [list(a) for a in spec['assocs']]
         self.link_paths = []
         self.link_info = []      # [cls, ns, ends] per history link
+        self.dropped = []        # (link path, namespaces dropped by a ModifyInstance) - input class for signatures
         self.new_nodes = []
 
 
@@ -1178,7 +1218,12 @@ def apply_step(conn, spec, state, st, count):
                         conn.ModifyInstance(inst, PropertyList=[np_.name for np_ in newprops])
                     else:
                         conn.ModifyInstance(inst)
+                before = set(state.nodes[i][0].lower() for i in ends.values() if i is not None)
                 ends.update(change)
+                after = set(state.nodes[i][0].lower() for i in ends.values() if i is not None) | {ns.lower()}
+                if before - after:
+                    state.dropped.append((p.copy(), before - after))
+                    count('history:modify_drops_namespace')
                 count('history:modify:' + mode)
         elif kind == 'del_link':
             p = state.link_paths[st[1]] if st[1] < len(state.link_paths) else None
@@ -1208,7 +1253,7 @@ def history_queries(spec, conn, rng, state, first):
                 if not any(p.type == 'reference' for p in i.properties.values()):
                     srcs.append((ns, i.path.copy()))
         rng.shuffle(srcs)
-        srcs = srcs[:10]
+        srcs = srcs[:8]
     else:
         srcs = [(nd[0], node_path(nd)) for nd in state.new_nodes]
         state.new_nodes = []
@@ -1216,7 +1261,7 @@ def history_queries(spec, conn, rng, state, first):
     roots = [a[0] for a in spec['assocs'] if not a[1]]
     for ns, p in srcs:
         fs = [{'ac': None, 'rc': None, 'role': None, 'rrole': None}]
-        for _ in range(3):
+        for _ in range(2):
             f = relevant_filter(conn, ns, p, rng)
             if f is not None:
                 fs.append(f)
@@ -1299,7 +1344,7 @@ def run(run):
     # histories: queries interleaved with repository growth on one connection (own generator so that the
     # repositories above stay the same for a given seed)
     hrng = random.Random(run.seed * 7919 + 13)
-    for i in range(120 if run.thorough else 40):
+    for i in range(100 if run.thorough else 32):
         s = gen_history_spec(hrng, False)
         s['thorough'] = False
         specs.append(s)
